@@ -1098,8 +1098,9 @@ class Interp:
                 raise PyRaise("TypeError", f"indices must be integers, not {idx.cls.name}")
             idx = self.call_function(m, [idx], {})
         if isinstance(o, dict) and isinstance(idx, tuple) and _symbolic_key(idx):
-            if _KeyBox(idx) in o:
-                return o[_KeyBox(idx)]
+            k_found = self.dict_find_symbolic(o, idx)
+            if k_found is not None:
+                return o[k_found]
             raise PyRaise("KeyError", "tuple key with symbolic entries")
         if isinstance(idx, slice) and any(is_sym(x) for x in (idx.start, idx.stop, idx.step)):
             s = [concrete_value(x) if is_sym(x) else x for x in (idx.start, idx.stop, idx.step)]
@@ -1122,13 +1123,9 @@ class Interp:
                             return o[-i]
                     raise PyRaise("IndexError", "index out of range")
                 if isinstance(o, dict):
-                    if _KeyBox(idx) in o:           # stored under the same term
-                        return o[_KeyBox(idx)]
-                    for k2 in list(o):
-                        if isinstance(k2, _KeyBox):
-                            continue
-                        if self.truth(compare(idx, k2, "==")):
-                            return o[k2]
+                    k_found = self.dict_find_symbolic(o, idx)
+                    if k_found is not None:
+                        return o[k_found]
                     raise PyRaise("KeyError", "symbolic key")
                 raise Unsupported(f"symbolic index into {type(o).__name__}")
         if isinstance(idx, tuple) and any(isinstance(x, np.ndarray) and x.dtype == object for x in idx):
@@ -1154,7 +1151,8 @@ class Interp:
 
     def setitem(self, o, idx, v):
         if isinstance(o, dict) and isinstance(idx, tuple) and _symbolic_key(idx):
-            o[_KeyBox(idx)] = v         # same-term policy for keys with symbolic entries (see `contains`)
+            k_found = self.dict_find_symbolic(o, idx)
+            o[k_found if k_found is not None else _KeyBox(idx)] = v
             return
         if isinstance(o, Obj):
             m, _ = o.cls.find("__setitem__")
@@ -1194,7 +1192,8 @@ class Interp:
                 if isinstance(o, dict):
                     # a dict entry under a symbolic key (same-term policy, see `contains`): replaces the entry stored under
                     # the same term, otherwise a new entry
-                    o[_KeyBox(idx)] = v
+                    k_found = self.dict_find_symbolic(o, idx)
+                    o[k_found if k_found is not None else _KeyBox(idx)] = v
                     return
                 raise Unsupported("symbolic index assignment")
             idx = c
@@ -1454,6 +1453,39 @@ class Interp:
         except TypeError as e:
             raise PyRaise("TypeError", str(e))
 
+    def dict_find_symbolic(self, o, key):
+        """the stored key of dict `o` equal to `key` (a key with symbolic parts), as CPython's lookup by VALUE sees it: the same
+        terms match at once; otherwise every stored key of the same shape is compared part by part and the path FORKS on
+        the equality when it is not decided (two different terms that may be equal are both explored)"""
+        box = _KeyBox(key)
+        if box in o:
+            return box
+        parts = box.parts
+        for k2 in list(o.keys()):
+            kp = k2.parts if isinstance(k2, _KeyBox) else _key_parts(k2)
+            if len(kp) != len(parts) or any(a[0] == "t" and (b[0] != "t" or a[1] != b[1]) for a, b in zip(parts, kp)) or any((a[0] == "t") != (b[0] == "t") for a, b in zip(parts, kp)):
+                continue
+            conds = []
+            ok = True
+            for a, b in zip(parts, kp):
+                if a[0] == "t":
+                    continue
+                va = Sym(a[2], a[1]) if a[0] == "s" else a[1]
+                vb = Sym(b[2], b[1]) if b[0] == "s" else b[1]
+                if a[0] == "c" and b[0] == "c":
+                    if va != vb:
+                        ok = False
+                        break
+                    continue
+                try:
+                    conds.append(compare(va, vb, "=="))
+                except Exception:
+                    ok = False
+                    break
+            if ok and (not conds or self.truth(And(*conds))):
+                return k2
+        return None
+
     def contains(self, container, x):
         if isinstance(container, Obj):
             m, _ = container.cls.find("__contains__")
@@ -1464,7 +1496,7 @@ class Interp:
             if _symbolic_key(x):
                 # CPython hashes the key: here a symbolic key matches an entry stored under the SAME term only (as for the
                 # memoising decorators: two different terms that might be equal count as different keys, never a guessed hit)
-                return _KeyBox(x) in container
+                return self.dict_find_symbolic(container, x) is not None
             return x in container
         if isinstance(container, (list, tuple, set, frozenset, np.ndarray, range)) or True:
             if isinstance(container, str):
